@@ -84,7 +84,7 @@ def phase2 {S : Type} (read : S → Nat → S × Bytes × Option Term) :
   | _, [] => []
   | s, n :: ns => let r := read s n; (r.2.1, r.2.2) :: phase2 read r.1 ns
 
-/-- `c14reader <lazy|h1gz> <open: ok|eof|errN> <out> <end> <closeAfter: -1|j> <sizes> <extra>`:
+/-- `c14reader <lazy|lazykeep|h1gz> <open: ok|eof|errN> <out> <end> <closeAfter: -1|j> <sizes> <extra>`:
 read with `sizes` (cycling) until an error — or, if `closeAfter = j ≥ 0`, for at most `j`
 reads, then `Close` — then `extra` more reads. Answer: `data=<hex|prefix> t=<end|-> after=…`.
 When closing after j > 0 reads the amount read so far depends on how short the real reader's
@@ -103,13 +103,17 @@ def laneReader : List String → String
       let src : Src := ⟨[], .eof⟩
       let limit : Nat := if ca < 0 then out.length + 8 else ca.toNat
       let render (data : Bytes) (t : Option Term) (after : List (Bytes × Option Term)) : String :=
-        "data=" ++ (if ca > 0 then (if data.isPrefixOf out then "prefix" else "notprefix") else encodeHex data) ++
+        "data=" ++ (if ca > 0 then (if data.isPrefixOf out then "prefix" else "notprefix")
+          else match t with
+            | some (.err _) => "partial"   -- how much is produced before an error depends on input chunking
+            | _ => encodeHex data) ++
         " t=" ++ (if ca > 0 then "*" else match t with | some t => t.show | none => "-") ++
         " after=" ++ (if after.isEmpty then "-" else ",".intercalate (after.map showRes))
-      if kind == "lazy" then
-        let p := phase1 (lazyRead C) sizes limit 0 (LazyState.init src) []
+      if kind == "lazy" || kind == "lazykeep" then
+        let keep := kind == "lazykeep"
+        let p := phase1 (lazyRead C keep) sizes limit 0 (LazyState.init src) []
         let st := if ca ≥ 0 then lazyClose p.1 else p.1
-        render p.2.1 p.2.2 (phase2 (lazyRead C) st extra)
+        render p.2.1 p.2.2 (phase2 (lazyRead C keep) st extra)
       else if kind == "h1gz" then
         let p := phase1 (h1gzRead C) sizes limit 0 (H1GzState.init src) []
         let st := if ca ≥ 0 then h1gzClose p.1 else p.1
